@@ -140,6 +140,21 @@ CHECKS = {
              'broke it was repaired; the proved negation witness of the old code is kept in Props/C17). ' + TB,
         technique='Lean 4 proof (order lemmas, Real.log monotone, List.map/flatten) + Float-instantiated model correspondence + '
                   'chunking/monotonicity oracle on the implementation'),
+    'C14': dict(
+        text='Lean 4 theorems about a decision model of the openers (file = signature + image-segment classes + graphics count + '
+             'DES id/payload list, any lengths): sarpy.io.open and the per-family trial loops are first-accept cascades; _find_sicd '
+             'and _find_sidd are characterised over arbitrary DES lists; for every descriptor the SICD / SIDD / CPHD / CRSD writer '
+             'models produce (any number of additional DES in front, any number of products, segments and embedded SICD DES) exactly '
+             'the right family opener accepts with the right reader kind, for path and file object, the other three reject, and the '
+             'top-level open returns the same kind; signature-less descriptors are rejected by every opener. The model is tied on '
+             'every run by extracting the descriptor of ~530 (quick) real files with an independent parser and comparing all 8 entry '
+             'point cells and SICDDetails/SIDDDetails with the model, and by a recipe-based oracle over the opener x file-kind matrix '
+             'incl. signature-less strings of every length 0..64 and powers of two to 1 MiB.',
+        design='DESIGN.md 6/C14',
+        note='proved: cascade, DES discrimination, exclusivity on writer descriptors, signature-less rejection (decision logic). '
+             'Correspondence only: that real files reduce to their descriptor; vendor openers; NITF 2.0; reader construction beyond '
+             'SIDD bookkeeping. One source switch (SIDDDetails refuses graphics) is re-read from the source each run. ' + TB,
+        technique='Lean 4 proof (induction over DES / image lists, decide on finite cases) + out-of-band descriptor correspondence + matrix oracle'),
 }
 
 
